@@ -34,7 +34,9 @@ def generate(rng, tier):
         ops = []
         for _ in range(ln):
             r = rng.random()
-            if r < ppush: ops.append(rand_error_spec(rng))
+            if r < ppush:
+                prev = [o for o in ops if o not in ("o", "l", "k")]
+                ops.append(prev[-1] if prev and rng.random() < 0.25 else rand_error_spec(rng))
             elif r < ppush + (1 - ppush) * 0.6: ops.append("o")
             elif r < ppush + (1 - ppush) * 0.9: ops.append("l")
             else: ops.append("k")
